@@ -88,6 +88,21 @@ for t, n, tier in [("u8", 3, "q"), ("u8", 4, "q"), ("i8", 4, "q"), ("u16", 5, "q
       f"parser == reference accumulator value, or -222 when outside the type", f"all NR1 literals of {n} bytes",
       cap_s=(3600 if tier == "ta" else 600), mem_gb=4, stubset="float", unwind=12, also=["C01"])
 
+# ---------------------------------------------------------------------------- C12
+for n in range(1, 7):
+    for l in range(0, n + 1):
+        tier = "q" if n <= 4 else "t"
+        H(f"c12_{tier}_array_n{n}_l{l}", "C12", f"c12::array_step::<{n}, {l}, _>",
+          f"ArrayErrorQueue<{n}> holding {l} arbitrary errors (custom any i16 with/without extended text, standard): one "
+          f"arbitrary push/pop/clear vs the FIFO specification incl. -350 marking of the newest slot when full",
+          f"capacity {n}, length {l}, all error contents, all operations; one inductive step", cap_s=200, mem_gb=2,
+          unwind=8, sample=(n == 2 and l == 2))
+for l in range(0, 6):
+    tier = "q" if l <= 3 else "t"
+    H(f"c12_{tier}_vec_l{l}", "C12", f"c12::vec_step::<{l}, _>",
+      f"VecErrorQueue holding {l} arbitrary errors: one arbitrary push/pop/clear vs the FIFO specification",
+      f"length {l}, all error contents, all operations", cap_s=200, mem_gb=2, unwind=8)
+
 # ---------------------------------------------------------------------------- C14
 H("c14_q_custom_mask", "C14", "c14::custom_mask", "Error::custom(c,_).esr_mask() and ErrorCode::Custom(c,_).esr_mask() "
   "== IEEE 488.2 class table, get_code()==c", "all 65536 error numbers", cap_s=120, mem_gb=2, sample=True)
@@ -108,6 +123,28 @@ for ques in ("false", "true"):
       f"directly on an arbitrary device: response value (bit 15 clear), read-and-clear, write-read-back, frame conditions",
       "all register states of both sets, ESR/ESE/SRE, all u16 parameters, missing / out-of-range parameter",
       cap_s=400, mem_gb=4, stubset="nextdata", unwind=12, sample=True)
+
+# ---------------------------------------------------------------------------- C16
+for ql in (0, 1):
+    H(f"c16_q_stb_q{ql}", "C16", f"c16::stb::<{ql}, _>", f"scpi_stb() and *STB? (symbolic message-available flag) from "
+      f"an arbitrary device with {ql} queued error(s) == bit-by-bit 488.2 status byte incl. MSS; reading changes nothing",
+      "all ESR/ESE/SRE values, all states of both register sets, MAV both ways", cap_s=300, mem_gb=3, unwind=12,
+      sample=True)
+for w, nm in ((0, "ese"), (1, "sre")):
+    H(f"c16_q_{nm}", "C16", f"c16::enable::<{w}, _>", f"*{nm.upper()} <any u8 | missing | out of range> and *{nm.upper()}? "
+      f"from an arbitrary device: stores / reads back, -109 / -222 leave the register, nothing else changes",
+      "all register states, all u8 values", cap_s=300, mem_gb=3, stubset="nextdata", unwind=12)
+for ql in (0, 2):
+    H(f"c16_q_cls_q{ql}", "C16", f"c16::cls::<{ql}, _>", f"*CLS on the documented wiring with {ql} queued error(s): ESR, "
+      f"both event registers and the error queue cleared; enable, condition and filter registers untouched",
+      "all register states", cap_s=300, mem_gb=3, unwind=12, also=["C15"])
+for ql in (0, 1, 2):
+    H(f"c16_q_opc_q{ql}", "C16", f"c16::opc::<{ql}, _>", f"*OPC sets ESR bit 0 (and records -800), *OPC? answers 1; "
+      f"{ql} queued error(s), capacity 2", "all register states", cap_s=300, mem_gb=3, unwind=12, also=["C13"])
+H("c16_q_tst_rst_wai", "C16", "c16::tst_rst_wai", "*TST? answers 0 or the self-test error code (any i16), *RST and *WAI: "
+  "no status register or queue change", "all register states, all self-test codes", cap_s=300, mem_gb=3, unwind=12)
+H("c16_q_esr", "C16", "c16::esr", "*ESR? returns the ESR and clears exactly it", "all register states", cap_s=300,
+  mem_gb=3, unwind=12, also=["C13"])
 
 PROPS = {
     "C07": {
@@ -155,6 +192,36 @@ PROPS["C15"] = {
                   "every history; the commands are the real handlers called through the public Command trait, their "
                   "responses decoded by an independent NR1 decoder.",
     "level_note": "Trusted: Kani/CBMC/CaDiCaL; the per-bit latch specification in checks/c15.rs; the next_data contract stub.",
+}
+
+PROPS["C12"] = {
+    "bounds": {"quick": "ArrayErrorQueue capacities 1..4 at every fill level; VecErrorQueue with 0..3 entries",
+               "thorough": "capacities 1..6; Vec 0..5 entries"},
+    "outside": "capacities > 6, Vec queues longer than 5 (the code is uniform in the capacity); allocation failure of Vec",
+    "assumptions": [],
+    "level_text": "Bounded model checking as an inductive step over the identity abstraction: queue contents (each entry "
+                  "an arbitrary custom/standard error with or without extended text), the operation and its argument "
+                  "are symbolic; one SAT query per (capacity, fill level) decides the sequence specification for every "
+                  "history leading to that fill level.",
+    "level_note": "Trusted: Kani/CBMC/CaDiCaL and Kani's model of Vec/ArrayVec memory; capacities and lengths are "
+                  "concrete per instance (stated bound).",
+}
+
+PROPS["C16"] = {
+    "bounds": "one command from an arbitrary device state (all 8-bit registers, both 5x16-bit register sets, queue with "
+              "0/1/2 entries in a capacity-2 queue, message-available flag both ways); identity abstraction => any history",
+    "outside": "the text->u8 step of *ESE/*SRE parameters (Parameters::next_data stubbed: any u8 | -109 | -222; the "
+               "0..255 acceptance itself is u8::try_from(Token), decided in C07); the register-set summary is taken as "
+               "the library documents it (enabled CONDITION bits) - SCPI-99 defines it over the EVENT register, a "
+               "divergence the property text does not decide",
+    "assumptions": ["Parameters::next_data::<u8> returns the denoted value or a documented error (contract stub)",
+                    "device wired as scpi-contrib/examples/minimal_scpi.rs documents (cls -> scpi_cls, stb -> scpi_stb, "
+                    "opc -> scpi_opc, handle_error -> push_error)"],
+    "level_text": "Bounded model checking as an inductive step: every status register of the documented-wiring device is "
+                  "symbolic, the real command handlers are called through the public Command trait, and the post-state "
+                  "and decoded response are compared with a bit-by-bit transcription of the 488.2 status model "
+                  "including frame conditions (what must not change).",
+    "level_note": "Trusted: Kani/CBMC/CaDiCaL; the status-byte specification in checks/c16.rs; the next_data contract stub.",
 }
 
 # properties whose check is still being built (kept current as the work proceeds)
